@@ -596,7 +596,8 @@ theorem relationRecord_total (c : Ctx) (fs : List Feature) (hnt : c.nt = nsTable
     (hs : c.strs.length < 2 ^ 48) (r : Feature) (hr : r ∈ fs) (h3 : r.id.typ = 3)
     (hplain : ∀ t ∈ r.tags, t.val.plain = true)
     (hstr : ∀ s ∈ stringsOf r, c.strs.contains s = true)
-    (htl : r.tags.length < 2 ^ 48) (hml : r.members.length < 2 ^ 48) : ∃ d, relationRecord c fs r = .ok d := by
+    (htl : r.tags.length < 2 ^ 48) (hml : r.members.length < 2 ^ 48) (hmt : ∀ m ∈ r.members, m.id.typ < 4) :
+    ∃ d, relationRecord c fs r = .ok d := by
   obtain ⟨ts, hts, htok⟩ := tags_total_plain c hs r htl hplain (by
     intro t ht
     constructor
@@ -614,7 +615,7 @@ theorem relationRecord_total (c : Ctx) (fs : List Feature) (hnt : c.nt = nsTable
       let ref ← orPanic "member namespace" (mkRef c.nt m.id)
       let role ← orPanic "role" (strId c.strs m.role)
       pure (⟨BitVec.ofNat 64 m.id.typ, BitVec.ofNat 64 role, ref⟩ : Member) : Except BuildError Member)) = F
-  have hFok : ∀ m ∈ r.members, ∃ y, F m = .ok y ∧ y.ok = true := by
+  have hFok : ∀ m ∈ r.members, ∃ y, F m = .ok y ∧ y.fits = true := by
     intro m hm
     subst hF
     obtain ⟨ref, href⟩ := mkRef_of_mem c.nt m.id (by
@@ -626,7 +627,8 @@ theorem relationRecord_total (c : Ctx) (fs : List Feature) (hnt : c.nt = nsTable
       unfold stringsOf
       exact List.mem_append_right _ (List.mem_map.mpr ⟨m, hm, rfl⟩)))
     refine ⟨⟨BitVec.ofNat 64 m.id.typ, BitVec.ofNat 64 i, ref⟩, by simp [href, hi, bind, Except.bind, pure, Except.pure], ?_⟩
-    simp only [Member.ok, beq_iff_eq, BitVec.toNat_ofNat]
+    have := hmt m hm
+    simp only [Member.fits, Member.ok, Member.typeOk, Bool.and_eq_true, beq_iff_eq, decide_eq_true_eq, BitVec.toNat_ofNat]
     omega
   obtain ⟨ms, hms⟩ := mapM_except_ok_of_forall F r.members (fun m hm => by
     obtain ⟨y, hy, _⟩ := hFok m hm
@@ -635,7 +637,7 @@ theorem relationRecord_total (c : Ctx) (fs : List Feature) (hnt : c.nt = nsTable
     have hl := mapM_except_length F _ _ hms
     simp only [Members.ok, Bool.and_eq_true, decide_eq_true_eq, List.all_eq_true]
     refine ⟨by omega, ?_⟩
-    refine mapM_forall_except F (fun y => y.ok = true) r.members ms ?_ hms
+    refine mapM_forall_except F (fun y => y.fits = true) r.members ms ?_ hms
     intro m hm y hy
     obtain ⟨y', hy', hok⟩ := hFok m hm
     rw [hy] at hy'
@@ -891,10 +893,11 @@ theorem entryOf_total (strs : List Str) (fs : List Feature) (c : Ctx) (hnt : c.n
       rw [hv]
       unfold featureOK at hOK
       simp only [Bool.and_eq_true, decide_eq_true_eq, hfp.1.1, List.all_eq_true] at hOK
-      obtain ⟨⟨_, hsize⟩, ⟨hplain, _⟩⟩ := hOK
+      obtain ⟨⟨_, hsize⟩, ⟨hplain, hmem⟩⟩ := hOK
       unfold sizeOK at hsize
       simp only [Bool.and_eq_true, decide_eq_true_eq, List.all_eq_true] at hsize
       exact relationRecord_total c fs hnt hA.len hs f hfm hfp.1.1 hplain hstrs hsize.1.1.1.1.1 hsize.1.1.1.1.2
+        (fun m hm => (hmem m hm).1.2)
   obtain ⟨d, hd⟩ := hrec
   exact ⟨⟨(validated fs f).id.val, 0#64, d⟩, by simp [entryOf, hd, bind, Except.bind, pure, Except.pure]⟩
 
